@@ -141,13 +141,12 @@ private def chain4 : List (Plugin × Response) :=
     order, with exactly the earlier updates of `id` that were applied; an ignore-failure update
     that hit a taken field contributes nothing. Structural equality of `Resources`. -/
 theorem C04_update (id : Cid) (req : Resources) (rs : List (Plugin × Response)) (i : Nat) (s : State)
-    (hnd : NoDupItems (flatUpdates (rs.take i)))
     (h : (viewsAlong Quirks.fixed (initUpdate id req) (answeredAll rs))[i]? = some s) :
     s.reqRes = (walk (specBase (.update id) req) (rs.take i)).get (specBase (.update id) req) id := by
   have hrun := viewsAlong_run _ _ _ i s h
   rw [answeredAll_take] at hrun
   obtain ⟨rel, _⟩ := run_rel (baseOf (initUpdate id req)) (rs.take i) (initUpdate id req) s {}
-    (rel_fresh _ rfl rfl) (entOK_fresh _ rfl rfl) hnd hrun
+    (rel_fresh _ rfl rfl) (entOK_fresh _ rfl rfl) hrun
   rw [← walk_eq, baseOf_initUpdate] at rel
   rw [rel.vals id]
   have hk : s.kind = .update id := run_kind _ _ s _ hrun
@@ -157,28 +156,22 @@ theorem C04_update (id : Cid) (req : Resources) (rs : List (Plugin × Response))
 -- 40-d, the fourth plugin, is shown limit 3 / quota 4 / pids 5 and no cpu shares: the walk over
 -- the first three plugins
 example :
-    (∀ u ∈ flatUpdates chain4, u.ignoreFailure = true → (setsUpd u).Nodup) ∧
     ((viewsAlong Quirks.fixed (initUpdate (str "c0") { pids := some 5 }) (answeredAll chain4))[3]?.map fun s =>
       (decide (s.reqRes = (walk (specBase (.update (str "c0")) { pids := some 5 }) (chain4.take 3)).get
                  (specBase (.update (str "c0")) { pids := some 5 }) (str "c0")),
        (s.reqRes.memory.getD {}).limit, (s.reqRes.cpu.getD {}).shares, (s.reqRes.cpu.getD {}).quota, s.reqRes.pids))
     = some (true, some 3, none, some 4, some 5) := by decide
 
-/-- the same with the hypothesis stated once for the whole chain: every position -/
-theorem C04_update_request (id : Cid) (req : Resources) (rs : List (Plugin × Response))
-    (hnd : NoDupItems (flatUpdates rs)) (i : Nat) (s : State)
-    (h : (viewsAlong Quirks.fixed (initUpdate id req) (answeredAll rs))[i]? = some s) :
-    s.reqRes = (walk (specBase (.update id) req) (rs.take i)).get (specBase (.update id) req) id := by
-  apply C04_update id req rs i s _ h
-  intro u hu
-  apply hnd u
-  simp only [flatUpdates, List.mem_flatMap] at hu ⊢
-  obtain ⟨x, hx, hux⟩ := hu
-  exact ⟨x, List.mem_of_mem_take hx, hux⟩
+/-- **C04 for a whole update request**: every position of the chain, from the collector's
+    initial state. -/
+theorem C04_update_request (id : Cid) (req : Resources) (rs : List (Plugin × Response)) :
+    ∀ (i : Nat) (s : State),
+      (viewsAlong Quirks.fixed (initUpdate id req) (answeredAll rs))[i]? = some s →
+      s.reqRes = (walk (specBase (.update id) req) (rs.take i)).get (specBase (.update id) req) id :=
+  fun i s h => C04_update id req rs i s h
 
 -- 30-c, the third plugin, is shown limit 3 and pids 5, neither the dropped limit 8 nor cpu shares
 example :
-    (∀ u ∈ flatUpdates chain4, u.ignoreFailure = true → (setsUpd u).Nodup) ∧
     ((viewsAlong Quirks.fixed (initUpdate (str "c0") { pids := some 5 }) (answeredAll chain4))[2]?.map fun s =>
       (decide (s.reqRes = (walk (specBase (.update (str "c0")) { pids := some 5 }) (chain4.take 2)).get
                  (specBase (.update (str "c0")) { pids := some 5 }) (str "c0")),
@@ -188,13 +181,13 @@ example :
 /-- **Every position, chains with unsubscribed or dropped plugins.** Position `i` of a chain in
     which some plugins do not answer: the walk runs over the plugins before `i` that did. -/
 theorem C04_update_dropped (id : Cid) (req : Resources) (rs : List (Plugin × Option Response)) (i : Nat)
-    (s : State) (hnd : NoDupItems (flatUpdates (answered (rs.take i))))
+    (s : State)
     (h : (viewsAlong Quirks.fixed (initUpdate id req) rs)[i]? = some s) :
     s.reqRes = (walk (specBase (.update id) req) (answered (rs.take i))).get (specBase (.update id) req) id := by
   have hrun := viewsAlong_run _ _ _ i s h
   rw [run_answered] at hrun
   obtain ⟨rel, _⟩ := run_rel (baseOf (initUpdate id req)) (answered (rs.take i)) (initUpdate id req) s {}
-    (rel_fresh _ rfl rfl) (entOK_fresh _ rfl rfl) hnd hrun
+    (rel_fresh _ rfl rfl) (entOK_fresh _ rfl rfl) hrun
   rw [← walk_eq, baseOf_initUpdate] at rel
   rw [rel.vals id]
   have hk : s.kind = .update id := run_kind _ _ s _ hrun
